@@ -104,7 +104,7 @@ def run(ctx, res):
         cfg = args[2]
         tgv = cfg.fields["removal_marker_configuration"].fields.get("targets") if isinstance(cfg, A.Struct) and isinstance(cfg.fields.get("removal_marker_configuration"), A.Struct) else None
         tg = A.show(tgv) if tgv is not None else "?"
-        from_file = d.get("is_some(args.removal_marker_target_config)")
+        from_file = next((v_ for k_, v_ in d.items() if re.match(r"^is_some\(args\.removal_marker_target_config(?:\.as_deref\(\)|\.as_ref\(\))*\)$", k_)), None)
         want_src = {"args.removal_marker_target_name"} | ({common.FILE_LINES} if from_file else set())
         got_src = common.collection_sources(tgv)
         if got_src == want_src:
